@@ -29,9 +29,10 @@ const (
 	FaultCloseError    // reader's Close fails
 	FaultGarbage       // unparsable bytes swapped in for one load
 	FaultPanic         // the loader panics (in Open, or in Read after k bytes) with an error or a string
+	FaultEditWhileOpen // not a failure: the file is stored again between Open and the first Read
 )
 
-var FaultNames = []string{"none", "transient_miss", "open_error", "read_error_after_k_bytes", "close_error", "unparsable_content", "loader_panics"}
+var FaultNames = []string{"none", "transient_miss", "open_error", "read_error_after_k_bytes", "close_error", "unparsable_content", "loader_panics", "edited_between_open_and_read"}
 
 type armedFault struct {
 	path  string
@@ -56,6 +57,8 @@ type SimLoader struct {
 	DataEOF bool
 	// PanicInExists: loader_panics faults fire in Exists already (otherwise in Open / Read)
 	PanicInExists bool
+	// OnEditWhileOpen stores the file again (called between the inner Open and the first Read)
+	OnEditWhileOpen func(path string)
 }
 
 func NewSimLoader(inner jet.Loader) *SimLoader {
@@ -243,6 +246,9 @@ func (l *SimLoader) Open(p string) (io.ReadCloser, error) {
 		return nil, err
 	}
 	l.rec(Call{"Open", p, "ok"})
+	if f := l.take(p, FaultEditWhileOpen); f != nil && l.OnEditWhileOpen != nil {
+		l.OnEditWhileOpen(p) // the reader handed out must still deliver one complete version
+	}
 	if f := l.take(p, FaultGarbage); f != nil {
 		rc.Close()
 		g := l.Garbage
